@@ -8,8 +8,14 @@ ROOT = os.path.dirname(os.path.dirname(os.path.abspath(__file__)))
 TECH = "deterministic simulation with fault injection: seeded search over I/O schedules, faults and call histories against the real code, oracle = "
 
 CHECKS = {
+    "C01": ("exploration", "4/C01", TECH + "written history (flattened) = items read back, conditional on writer acceptance",
+            "Seeded tag trees (boundary-length payloads, integer/float extremes, raw tags) presented to the real writer as Start/End, Full, unknown size, explicit widths through a short-writing sink, then read strictly (whole read; a second read under a drawn schedule attributes schedule-only failures to C04).",
+            "Trusted: the generator's notion of a specification-conformant tree (ref_match), flattening of the written calls. Conditional on acceptance by the writer."),
+    "C02": ("exploration", "4/C02", TECH + "read -> write -> read fixpoint on the real code",
+            "Seeded byte streams (reference-encoder output with non-canonical encodings, writer output, byte-faulted/truncated variants); those the strict reader accepts from a root element are written back item by item and re-read.",
+            "Self-referential: both reads are the real iterator; reach (fraction in scope, non-canonical features accepted) is reported in the evidence."),
     "C03": ("exploration", "4/C03", TECH + "independent decode of the input at every reported offset + tiling",
-            "Seeded runs of the real iterator over scripted sources (chunking, capacity → compaction/growth); every successful item is re-derived from the input bytes by an independent decoder. Sampling, not proof.",
+            "Seeded runs of the real iterator over scripted sources (chunking, capacity -> compaction/growth); every successful item is re-derived from the input bytes by an independent decoder. Sampling, not proof.",
             "Trusted: the reference decoder (refdec.rs walk), the reference encoder used to make valid inputs, the hand-written PRNG. Runs that panic are left to C05."),
     "C04": ("exploration", "4/C04", TECH + "differential against the slice run of the same bytes",
             "Seeded random delivery schedules plus systematic sweeps per input (chunk sizes 1-17, every split position, capacities 0..41, all 2^(len-1) compositions for inputs <= 12 bytes), EOF pauses at tag boundaries, Interrupted; compared event by event (items, offsets, every error field) with the whole-input run.",
@@ -18,8 +24,35 @@ CHECKS = {
             "Seeded histories of next()/try_recover() over arbitrary and adversarial bytes, all configurations, both specification kinds, with hard errors / Interrupted / pauses injected into reads; each API call under catch_unwind, budgets and a 30 s watchdog for hangs.",
             "Trusted: catch_unwind sees every panic (library built with overflow checks and debug assertions); size limit kept <= 1 MiB."),
     "C06": ("exploration", "4/C06", TECH + "independent nesting / declared-path NFA / extent checker over the emitted items",
-            "Seeded strict-mode parses of valid, mid-document, byte-faulted and structurally faulted documents (element moved/duplicated, id substituted, size changed, size → unknown marker) under random schedules; emitted items replayed against the reference checker.",
+            "Seeded strict-mode parses of valid, mid-document, byte-faulted and structurally faulted documents (element moved/duplicated, id substituted, size changed, size -> unknown marker) under random schedules; emitted items replayed against the reference checker.",
             "Trusted: ref_match (path NFA) and the checker's own tiling; unknown-size closing moments are C07's subject."),
+    "C07": ("exploration", "4/C07", TECH + "differential between unknown-size encodings of one tree, the all-known-size encoding and the tree itself; reference decoder as third opinion",
+            "Seeded trees (depth up to 6) with random subsets - and for up to 7 masters ALL 2^m subsets - of masters encoded with unknown size, by the reference encoder and by the real writer, read strictly under a drawn schedule. Closing causes (sibling, ancestor instance, root, enclosing unknown master, parent exhaustion, EOF) are counted from the layout.",
+            "Trusted: flattening of the generated tree; unknown size only on masters with placeholder-free paths; the property's own ambiguous placements are excluded."),
+    "C08": ("exploration", "4/C08", TECH + "flatten(buffered run) vs unbuffered run of the same bytes",
+            "Seeded inputs (valid / truncated / byte-faulted, known and unknown sizes, recursive global masters) with drawn buffered-id sets or ALL non-empty subsets of the masters present (<= 6), same schedule for both runs.",
+            "Trusted: the unbuffered run of the real iterator as reference; default EOF closing."),
+    "C09": ("exploration", "4/C09", TECH + "byte equality of paired writer runs; size-field width decode by the reference walker",
+            "Seeded trees written 3-6 times in different presentations (Full incl. nested, deprecated unknown-size call, write_raw) through different short-write schedules; explicit widths and the reserved unknown-size value are located in the output by the reference walker; the option-free output must differ in size fields only.",
+            "Trusted: refdec.rs walk to locate elements; sink errors are not injected (the property speaks of partial writes)."),
+    "C10": ("exploration", "4/C10", TECH + "reference writer-state model + reference decoder of what the sink holds after every call and partial write",
+            "Seeded valid call histories (known/unknown-size masters interleaved, Full, raw, widths; optionally cut short, ended by flush()) through a short-writing sink observed after every call: prefix stability, nothing of an open known-size master delivered, everything visible and decodable when none is open, completeness after flush()/into_inner().",
+            "Trusted: ref_decode (closing rules as stated by C07) and the open-master bookkeeping derived from the call history."),
+    "C11": ("exploration", "4/C11", "seeded generation of specifications and of call histories / streams that build a chain of open masters, refinement check operation by operation against a reference path-pattern NFA (no schedule or fault dimension is relevant to this property; the simulator contributes the history generator and the oracle)",
+            "Seeded specifications (placeholders in trailing and intermediate position, global masters, depth <= 7) x reachable chains (some unknown-size) x EVERY element as probe, on the writer (Ok iff match, UnexpectedTag with id otherwise, state unchanged) and on the reader (stream from the reference encoder; judged against the chain after the closing rule).",
+            "Trusted: ref_match. The I/O seams are present but irrelevant here, which DESIGN.md states plainly."),
+    "C12": ("fault_enumeration", "4/C12", TECH + "expected prefix and EOF-error fields computed from the reference encoder's layout",
+            "Per generated document EVERY cut position 0..=len is executed (slice run + 2 drawn capacity/schedule pairs per cut); documents are drawn by seeded search.",
+            "Trusted: reference encoder and its layout. Documented tolerance: Ends of unknown-size masters implied only by the incomplete tag."),
+    "C13": ("exploration", "4/C13", TECH + "error kind/position from injected ground-truth faults; prefix monotonicity across all 8 tolerance subsets",
+            "Seeded single-fault documents (id outside the specification, misplaced element under known-size masters, child overrunning a known-size ancestor, size above the limit under unknown-size masters) and arbitrary faulted inputs, each parsed under all 8 tolerance subsets with a drawn schedule.",
+            "Trusted: the layout-based fault injection (exactly one fault of a known class). The default 4 GB limit is C17's subject."),
+    "C14": ("fault_enumeration", "4/C14", TECH + "undamaged parse shifted by the junk length; monotone offsets; failure kinds",
+            "Per generated known-size document EVERY tag boundary receives 3 drawn junk runs (1-12 bytes that cannot begin an id of the specification); driver next()/try_recover(); the main clause is judged where the layout says its precondition holds, the general clause always.",
+            "Trusted: reference encoder layout for boundaries and for the fits-after-shift precondition."),
+    "C19": ("fault_enumeration", "4/C19", TECH + "differential between a valid call history and the same history with failing calls inserted",
+            "Per generated valid history a failing call of each kind is inserted at EVERY position (one at a time plus a few pairs); per-call results, delivered bytes after each original call and the into_inner() result are compared with the undisturbed history.",
+            "Trusted: the construction of calls that must fail (ref_match for hierarchy, 2^(7w) bounds for widths); calls the writer accepts anyway are left to C11."),
 }
 
 NOT_APPLICABLE = {
